@@ -8,6 +8,7 @@
 #include <string.h>
 #include <pthread.h>
 #include <sched.h>
+#include <locale.h>
 #include <unistd.h>
 #include <sys/wait.h>
 #include <eav.h>
@@ -108,6 +109,9 @@ int main (int argc, char **argv)
      * is already initialised when the threads start (a first-use race would otherwise be hidden) */
     outcome_t *ref = calloc (total (), sizeof *ref);
     int pfd[2];
+    /* VERIF_LOCALE=<name>: the application has selected a locale before it starts its threads */
+    if (getenv ("VERIF_LOCALE") != NULL && setlocale (LC_ALL, getenv ("VERIF_LOCALE")) == NULL
+        && setlocale (LC_CTYPE, getenv ("VERIF_LOCALE")) == NULL) return 7;
     if (pipe (pfd) != 0) return 3;
     pid_t pid = fork ();
     if (pid == 0) {
